@@ -729,3 +729,12 @@ REG.contract('Cluster.finished_task_time_data', requires=_ftd_req,
              result='any', props=['C04', 'C11'],
              note="C11: the table is a pure function of the cluster state (empty frame: nothing may be cached on the cluster)")
 REG.loop('Cluster.finished_task_time_data', 0, inv=_ftd_inv, modifies_locals=['task'], modifies=['task_data'], props=['C04', 'C11'])
+
+
+def _fin_tasks_ens(c):
+    k = CV(c.o.self)
+    return [('keys-of-the-finished-map-each-once', Q([('t', I)], lambda t: c.result.count(t) == z3.If(k.fin.has(t), 1, 0))),
+            ('as-many-as-keys', c.result.n == k.fin.nk)]
+
+
+REG.contract('Cluster.finished_tasks', fix={'c': 'default'}, ensures=_fin_tasks_ens, result='list:Task', props=['C03'])
